@@ -213,6 +213,27 @@ def _corpus_shard(files):
     return part
 
 
+def field_literal_positions():
+    """one f-string each: a string literal somewhere below the field's expression - below nodes that are
+    not expressions (keyword, comprehension, lambda arguments, slice) and in the fields of format specs"""
+    sq = chr(39)
+    lit = sq + "k" + sq
+    inners = ["dict(a=%s)", "f(x, k=%s)", "f(**{%s: 1})", "[w for w in y if w != %s]", "[w for w in %s]", "{k: %s for k in y}",
+              "{c + %s for c in y}", "(w for w in y if %s)", "(lambda z=%s: z)()", "(lambda *, z=%s: z)()", "y[%s:]", "y[::len(%s)]",
+              "y[1, %s:2]", "x if %s else y", "[*%s]", "f(*%s)", "d[%s]", "d[%s].a", "%s.join(y)", "not %s", "x < %s < y",
+              "(w := %s)", "await_(%s)", "{%s: 1}", "{%s}", "(%s,)", "-len(%s)", "x and %s", "f(%s)(%s)"]
+    out = []
+    for t in inners:
+        e = t.replace("%s", lit)
+        if e.startswith("{"):
+            e = " " + e + " "
+        out.append('f"{' + e + '}"')
+        out.append('f"{x:{' + e + '}}"')
+        out.append('f"a{x!r:>{' + e + '}.{' + e + '}}b"')
+        out.append('f"{' + e + ':{' + e + '}}"')
+    return out
+
+
 def quote_heavy_nests():
     """f-strings nested three and four levels deep (all four kinds of quotes, valid before 3.12) whose
     OUTER literal text begins / ends with quotes, holds three in a row or a backslash"""
@@ -269,7 +290,7 @@ def run(report):
         srng = random.Random(env.sub_seed(report.seed, "C04", "hstr"))
         for st_ in srng.sample(strings, min(len(strings), 1500 if quick else 20000)):
             hs += [src for pos, src in lit.positions(st_)]
-        hs += quote_heavy_nests()
+        hs += quote_heavy_nests() + field_literal_positions()
         per = max(1, env.NPROC // len(others))
         items += [(c03.host_roundtrip_shard, (h, hs[j::per], "C04")) for h in others for j in range(per)]
         report.extra["other_hosts"] = others
